@@ -181,6 +181,8 @@ class Interp:
     def lookup(self, name):
         if self.frames and name in self.frames[-1]: return self.frames[-1][name]
         if name in self.globals: return self.globals[name]
+        if name in self.prog.functions or name in self.hooks:      # address of a function: an opaque one-cell object named after it
+            o = Obj("fn:" + name, 1); o.cells[0] = name; self.globals[name] = o; return o
         raise ExecError("unknown symbol " + name)
     def set_global(self, name, value):
         o = Obj(name, 1); o.cells[0] = value; self.globals[name] = o
@@ -402,6 +404,12 @@ class Interp:
         self.frames.append(fr)
         try:
             return self.run(fname, body)
+        except ExecError as ex:
+            if not getattr(ex, "where", None):                    # innermost function and source line, once
+                ex.where = fname; ins = getattr(self, "_cur", None)
+                line = ((ins or {}).get("sourceLocation") or {}).get("line", "?") if isinstance(ins, dict) else "?"
+                ex.args = ((ex.args[0] if ex.args else "") + " [in %s, line %s of the extracted text]" % (fname, line),) + tuple(ex.args[1:])
+            raise
         finally:
             self.frames.pop()
     def param_names(self, fname, n):
@@ -414,7 +422,7 @@ class Interp:
         while True:
             self.steps += 1
             if self.steps > self.max_steps: raise ExecError("step limit")
-            ins = body[pc]; k = ins["instructionId"]
+            ins = body[pc]; k = ins["instructionId"]; self._cur = ins
             if k == "ASSIGN":
                 lhs, rhs = ins["code"]["sub"]
                 if tid(rhs) == "side_effect" and nsub(rhs, "statement")["id"] == "nondet":
